@@ -124,6 +124,14 @@ MALFORMED_PEERS = ["unknown", "", "not-an-ip", "300.1.1.1", "1.2.3", "1.2.3.4.5"
                    "::ffff:c000:24d", "010.0.0.1", "1.2.3.4/32", "[::1]", "localhost", "10.1.2.3%eth0", "127.0.0.1%lo", "not-an-ip%eth0", "%eth0"]
 
 
+def _dict_paths():
+    from vlib import srcdict
+    return list(srcdict.path_words()) + ["/" + w for w in srcdict.file_names()[:24]]
+
+
+NOPEER = "<no peername>"
+
+
 @st.composite
 def case_st(draw):
     allow, deny = draw(lists_st()), draw(lists_st())
@@ -153,7 +161,11 @@ def case_st(draw):
             peers.append(draw(st.sampled_from(MALFORMED_PEERS)))
     return {"allow": allow, "deny": deny, "default_allow": draw(st.booleans()),
             "enabled": draw(st.sampled_from([True, True, True, False])),
-            "layer": draw(st.sampled_from(["object", "config", "toml", "server", "titan"])), "peers": peers}
+            "layer": draw(st.sampled_from(["object", "config", "toml", "server", "titan"])), "peers": peers,
+            # server layer: the path asked for (the policy is per address, whatever the path - words from the source's own
+            # constants included), and whether one more connection reports no peer address at all
+            "path": draw(st.sampled_from(["/", "/", "/index.gmi", "/nothing-here"] + _dict_paths())),
+            "nopeer": draw(st.booleans())}
 
 
 def ref_decision(case, peer: str):
@@ -315,18 +327,23 @@ def decide_all(case):
     async def srv(loop):
         factory, sslctx, task = await stacks.capture_start_server(loop, cfg, enable_rate_limiting=False, access_control_config=acc)
         out = []
-        for p in case["peers"]:
+        for p in _server_peers(case):
             proto = factory()  # stdlib branch: the app protocol itself
-            tr = FakeTransport(loop, peername=(p, 40000))
+            tr = FakeTransport(loop, peername=None if p == NOPEER else (p, 40000))
             tr.attach(proto)
-            tr.feed(b"gemini://localhost/\r\n")
+            tr.feed(b"gemini://localhost" + case.get("path", "/").encode("utf-8") + b"\r\n")
             await vloop.settle(8)
             S = tr.written()
-            out.append("refuse" if S.startswith(b"53 ") else ("admit" if S.startswith(b"20 ") else "other:" + b2s(S[:30])))
+            # admitted = the request got past the policy: served, or not found by the handler
+            out.append("refuse" if S.startswith(b"53 ") else ("admit" if S[:3] in (b"20 ", b"51 ") else "other:" + b2s(S[:30])))
         task.cancel()
         return out
 
     return vloop.run(srv)
+
+
+def _server_peers(case):
+    return case["peers"] + ([NOPEER] if case.get("nopeer") and case["layer"] == "server" else [])
 
 
 def run_case(case: dict):
@@ -337,8 +354,9 @@ def run_case(case: dict):
         return viol("valid-configuration-rejected", f"{e} for allow={case['allow']} deny={case['deny']}")
     stats = {"admit": 0, "refuse": 0, "grey": 0}
     policy_on = case["layer"] in ("object", "titan") or case["enabled"]
-    for p, g in zip(case["peers"], got):
-        ref = ref_decision(case, p) if policy_on else "admit"
+    for p, g in zip(_server_peers(case), got):
+        # a connection that reports no peer address has no address the lists could match: decided like an unparsable one
+        ref = ref_decision(case, "unknown" if p == NOPEER else p) if policy_on else "admit"
         if ref == "grey":
             stats["grey"] += 1
             continue
